@@ -81,7 +81,11 @@ pub fn check_genuine(ctx: &mut Ctx, buf: &[u8], creds: &RefCreds, what: &str) ->
     let shape = rp.attrs.iter().filter(|a| a.ty == MI || a.ty == MI256 || a.ty == FP).map(|a| match a.ty { MI => "MI".to_string(), FP => "FP".to_string(), _ => format!("MI256/{}", a.len) }).collect::<Vec<_>>().join(",");
     match &v {
         Val::Panic(m) => {
-            ctx.violation("C01", "no-panic", "Message::validate_integrity", "", w, "Ok or Err".into(), format!("panic: {m}"));
+            // whatever the message, validation answers (validates / fails / reports the attribute as
+            // missing): a panic is none of them
+            let tag = if ctx.prop == "C04" { "C04" } else { "C01" };
+            let what2 = if ri.attrs.is_empty() { "missing-reported" } else { "validation-answers" };
+            ctx.violation(tag, what2, "Message::validate_integrity", "panic", w, if ri.attrs.is_empty() { "Err(MissingAttribute)".into() } else { "Ok or Err".into() }, format!("panic: {m}"));
             None
         }
         Val::ParserRejected => {
